@@ -115,10 +115,12 @@ class Evaluator:
         if isinstance(t, (int, bool)):
             return t
         key = t.get_id()
-        if key in self.memo:
-            return self.memo[key]
+        hit = self.memo.get(key)
+        if hit is not None and hit[0].eq(t):
+            return hit[1]
         v = self._ev(t)
-        self.memo[key] = v
+        # keep the term itself in the memo: z3 recycles AST ids of freed terms
+        self.memo[key] = (t, v)
         return v
 
     def _ev(self, t):
